@@ -23,6 +23,8 @@
 //!
 
 #![warn(missing_docs)]
+// Verification hook: only lets a cfg(kani) stub name std's allocator parameter.
+#![cfg_attr(kani, feature(allocator_api))]
 
 pub use crate::compression::{CompressionMethod, SUPPORTED_COMPRESSION_METHODS};
 pub use crate::read::ZipArchive;
@@ -53,3 +55,9 @@ mod zipcrypto;
 /// zip = "=0.6.6"
 /// ```
 pub mod unstable;
+
+// Verification hook (guard: cfg(kani), set only by `cargo kani`); shared harness kit lives outside the repository.
+#[cfg(kani)]
+mod verif_kit {
+    include!(concat!(env!("ZIP_VERIF_HARNESS_DIR"), "/kit.rs"));
+}
